@@ -81,6 +81,12 @@ CLAIMED.update({
    technique='Coq proof (inversion of the report functions; interpolation lemmas over R); bit-exact correspondence on recorded histories', ref='6 C18'),
 })
 
+CLAIMED.update({
+ 'C04': dict(text='Machine-checked in three layers: (1) 0 <= e^{-kx} - (1-x)^k <= (2/5)x for every k and 0 < x <= 1/5 (mean-value theorem via Coquelicot, no interval arithmetic); (2) the explicit recurrence the solver performs on w\' = A - kap w stays within (2/5) kap dt |w0 - w_inf| in speed and dt |w0 - w_inf| in position of the exponential closed form at every instant, for every step count; (3) refinement: every never-held history of the solver model at constant duty cycle above the dead zone (motor with current data), constant step and constant load has the SI speed and position of its output element EQUAL to that recurrence, with A and kap explicit in ratios, efficiencies, inertias, motor constants and load, for chains of any length and any units - hence the model\'s own trajectory satisfies the bound.',
+   note=SOLVER_NOTE + ' Not covered by the refinement (partial there, left to the correspondence and to the dt/2, dt/4 search on the implementation): motors without current data, negative duty cycles, and the two-sided "error roughly halves" statement (only the O(dt) upper bound is a theorem; the halving ratio is measured by the search). Axioms: the standard real-number axioms and Classical_Prop.classic (Coquelicot).',
+   technique='Coq proof (real analysis with Coquelicot + refinement of the solver model to the linear recurrence by induction over histories); bit-exact correspondence; convergence search on the implementation', ref='6 C04'),
+})
+
 PENDING = {}
 ALL = ['C%02d' % i for i in range(1, 21)]
 
